@@ -204,7 +204,9 @@ func (se *SpecEnv) eval(e SExpr) (Value, types.Type) {
 			bound = append(bound, bv)
 			n.names[v.Name] = specBinding{bv, t}
 			// typing guards for bound variables: integer ranges
-			if b, ok := t.Underlying().(*types.Basic); ok && b.Info()&types.IsInteger != 0 {
+			if b, ok := t.Underlying().(*types.Basic); ok && b.Info()&types.IsInteger != 0 && (intBits(t) < 64 || isUnsigned(t)) {
+				// (64-bit signed bound variables range over all mathematical integers: every use is
+				// guarded by the body's own bounds; narrower and unsigned types keep their range)
 				g := vc.IntRange(bv, t)
 				if !IsTrue(g) {
 					guards = append(guards, g)
@@ -298,7 +300,7 @@ func (se *SpecEnv) binary(x *SBin) (Value, types.Type) {
 			it := types.Typ[types.Int]
 			arr := se.ex.sliceElems(se.cur, u.Elem(), mterm)
 			return Exists([]*Term{iq}, And(vc.Cmp("<=", vc.IntConst(0), iq, it), vc.Cmp("<", iq, vc.SliceLen(mterm), it),
-				Eq(Select(arr, vc.Arith("+", vc.SliceOff(mterm), iq, it)), kk))), boolT
+				Eq(vc.SliceAt(arr, vc.SliceOff(mterm), iq), kk))), boolT
 		}
 		se.fail(x, "in: unsupported container type %s", mt)
 	}
@@ -328,6 +330,14 @@ func (se *SpecEnv) binary(x *SBin) (Value, types.Type) {
 		}
 	}
 	a, b, t := se.unify(lv, lt, rv, rt)
+	// slice compared with nil
+	if x.Op == "==" || x.Op == "!=" {
+		if a.Sort == SSlc && rt == types.Typ[types.UntypedNil] {
+			a, b = vc.SlicePtr(a), IntLit(0)
+		} else if b.Sort == SSlc && lt == types.Typ[types.UntypedNil] {
+			a, b = IntLit(0), vc.SlicePtr(b)
+		}
+	}
 	switch x.Op {
 	case "==":
 		if a.Sort != b.Sort {
@@ -564,7 +574,7 @@ func (se *SpecEnv) index(x *SIndex) (Value, types.Type) {
 	case *types.Slice:
 		i := se.materialize(iv, Sym("x", vc.IntSort()), it)
 		arr := se.ex.sliceElems(se.cur, u.Elem(), c)
-		return Select(arr, vc.Arith("+", vc.SliceOff(c), i, types.Typ[types.Int])), u.Elem()
+		return vc.SliceAt(arr, vc.SliceOff(c), i), u.Elem()
 	case *types.Array:
 		i := se.materialize(iv, Sym("x", vc.IntSort()), it)
 		return Select(c, i), u.Elem()
@@ -694,6 +704,18 @@ func (se *SpecEnv) callExpr(x *SCall) (Value, types.Type) {
 			return vc.SetOp("singleton", se.materialize(v, Sym("x", SInt), t)), se.ex.eng.cpusetType()
 		case "emptyset":
 			return vc.EmptySet(), se.ex.eng.cpusetType()
+		}
+		// a call through a function-valued parameter / local
+		if b, bound := se.names[id.Name]; bound {
+			if r, t, ok := se.callFuncValue(x, b.val, b.typ, x.Args); ok {
+				return r, t
+			}
+		} else if se.fr != nil {
+			if lv, lt, ok := se.ex.lookupLocalAt(se.fr, id.Name, se.at, se.cur, se.beforeIdx); ok {
+				if r, t, ok := se.callFuncValue(x, lv, lt, x.Args); ok {
+					return r, t
+				}
+			}
 		}
 		// conversion T(x)?
 		if _, bound := se.names[id.Name]; !bound {
@@ -862,6 +884,10 @@ func (se *SpecEnv) applyPureArgs(x *SCall, pf *PureFunc, argEnv *SpecEnv, argExp
 // callReal evaluates a call to a real Go function as a specification term: the body is executed
 // symbolically on a copy of the current state and its result used; effects are discarded.
 func (se *SpecEnv) callReal(x SExpr, fn *ssa.Function, args []Value) (Value, types.Type) {
+	return se.callRealFree(x, fn, nil, args)
+}
+
+func (se *SpecEnv) callRealFree(x SExpr, fn *ssa.Function, free []Value, args []Value) (Value, types.Type) {
 	if fn == nil {
 		se.fail(x, "function has no SSA body")
 	}
@@ -909,7 +935,7 @@ func (se *SpecEnv) callReal(x SExpr, fn *ssa.Function, args []Value) (Value, typ
 	// a contract on the function is not used here: specs mean the real body
 	var v Value
 	if ex.canInline(fn) {
-		v, _ = ex.inline(fr, sub, se.reach, fn, nil, args, nil, &exits)
+		v, _ = ex.inline(fr, sub, se.reach, fn, free, args, nil, &exits)
 	} else {
 		ex.stack = saveTop
 		ex.safety, ex.ovfCheck = savedSafety, savedOvf
@@ -1233,4 +1259,52 @@ func (ex *Exec) assumeFunctionalEnsures(fn *ssa.Function, fc *FuncContract, args
 	for _, e := range fc.Ensures {
 		ex.vc.Assume(And(pre...), se.evalBool(e.Expr))
 	}
+}
+
+// callFuncValue evaluates f(args) in a specification where f is a function value: a closure or
+// function known to the executor is inlined (as a pure term); a symbolic value of a function type
+// declared `pure` becomes the same uninterpreted application the code uses.
+func (se *SpecEnv) callFuncValue(x *SCall, fv Value, ft types.Type, argExprs []SExpr) (Value, types.Type, bool) {
+	sig, ok := types.Unalias(ft).Underlying().(*types.Signature)
+	if !ok {
+		return nil, nil, false
+	}
+	vc := se.ex.vc
+	var args []Value
+	for i, a := range argExprs {
+		v, t := se.eval(a)
+		if c, ok := v.(*constVal); ok {
+			v = se.materialize(c, Sym("x", vc.SortOf(sig.Params().At(i).Type())), t)
+		}
+		args = append(args, v)
+	}
+	var rt types.Type = sig.Results()
+	if sig.Results().Len() == 1 {
+		rt = sig.Results().At(0).Type()
+	}
+	if t, isT := fv.(*Term); isT && t.IsLeaf() {
+		if real, ok := se.ex.funcVals[t.Op]; ok {
+			fv = real
+		}
+	}
+	switch f := fv.(type) {
+	case *Closure:
+		r, _ := se.callRealFree(x, f.fn, f.bindings, args)
+		return r, rt, true
+	case *FuncVal:
+		r, _ := se.callRealFree(x, f.fn, nil, args)
+		return r, rt, true
+	case *Term:
+		if n, ok := types.Unalias(ft).(*types.Named); ok && n.Obj().Pkg() != nil {
+			if fc, ok := se.ex.eng.cs.FuncTypes[n.Obj().Pkg().Path()+"."+n.Obj().Name()]; ok {
+				if _, pure := fc.Opts["pure"]; pure {
+					if rv := se.ex.applyPureFuncValue(n, f, args); rv != nil {
+						return rv, rt, true
+					}
+				}
+			}
+		}
+	}
+	se.fail(x, "call through a function value that is neither a known closure nor of a pure function type")
+	return nil, nil, false
 }
